@@ -11,7 +11,10 @@ BIN=.build/mc.$$.test
 trap 'rm -f "$BIN"' EXIT
 OVERLAY=()
 if [ -n "${VERIF_OVERLAY:-}" ]; then OVERLAY=(-overlay "$VERIF_OVERLAY"); fi
-if ! $GO test -c -tags verif -vet=off "${OVERLAY[@]}" -o "$BIN" . 2> .build/build.$$.log; then
+build() { $GO test -c -tags verif -vet=off "${OVERLAY[@]}" -o "$BIN" . 2> .build/build.$$.log; }
+# one retry: a build that fails for a reason outside the sources (cache being trimmed, file system busy)
+# is not a verdict on anything
+if ! build && { sleep 3; ! build; }; then
   echo "HARNESS-ERROR: build failed" >&2; cat .build/build.$$.log >&2; rm -f .build/build.$$.log; exit 2
 fi
 rm -f .build/build.$$.log
